@@ -594,12 +594,16 @@ class Arr2(object):
     def ndim(self):
         return 2
 
+    _dtype = None
+
     @property
     def dtype(self):
-        return self.cols[0].dtype
+        return self._dtype if self._dtype is not None else self.cols[0].dtype
 
     def copy(self):
-        return Arr2([c.copy() for c in self.cols], self.n)
+        r = Arr2([c.copy() for c in self.cols], self.n)
+        r._dtype = self._dtype
+        return r
 
     def whole(self):
         return ir.uf('arr2', [c.whole() for c in self.cols], 'U')
